@@ -37,6 +37,7 @@ type Opts struct {
 	FieldExtreme bool    // draw versions/nonce/time from the corners of their ranges
 	Forbidden    []refmodel.Hdr // pre-built forbidden headers that may be submitted
 	PForbidden   float64
+	PMerkleDup   float64 // probability that a new header re-uses the merkle root of an earlier one
 }
 
 // History is a sequence of submissions in arrival order.
@@ -164,6 +165,9 @@ func Random(rng *rand.Rand, genesis refmodel.Hdr, o Opts) History {
 		}
 		h.Bits = PickBits(rng, o.Classes)
 		Fields(rng, &h, o.FieldExtreme, counter)
+		if o.PMerkleDup > 0 && len(created) > 0 && rng.Float64() < o.PMerkleDup {
+			h.Merkle = created[rng.Intn(len(created))].hdr.Merkle
+		}
 		k := known{hdr: h, hash: h.HashOf()}
 		created = append(created, k)
 		lastNew = k.hash
